@@ -39,6 +39,19 @@ theorem coreInv_mark {s : St} (h : CoreInv s.core) (n : Node) (hp : s.procExists
   · simp [upd, hmn]
     simpa using hm
 
+theorem coreInv_nodeBegin (c : Ctx) (s : St) (obs : List Obs) (d : DagRef) (n : Node) (force : Bool)
+    (below : List Frame) (inv : Nat) (h : CoreInv s.core) : CoreInv (nodeBegin c s obs d n force below inv).1.core := by
+  unfold nodeBegin
+  split <;> simpa using h
+
+theorem coreInv_cbThen (c : Ctx) (s : St) (obs : List Obs) (frames : Nat → List Frame) (m : Nat)
+    (k : St → List Obs → Out) (h : CoreInv s.core) (hk : ∀ s' obs', CoreInv s'.core → CoreInv (k s' obs').1.core) :
+    CoreInv (cbThen c s obs frames m k).1.core := by
+  unfold cbThen
+  split
+  · exact hk _ _ h
+  · simpa using h
+
 theorem coreInv_nodeStart (c : Ctx) (s : St) (obs : List Obs) (d : DagRef) (n : Node) (force : Bool)
     (below : List Frame) (h : CoreInv s.core) : CoreInv (nodeStart c s obs d n force below).1.core := by
   unfold nodeStart
@@ -47,8 +60,7 @@ theorem coreInv_nodeStart (c : Ctx) (s : St) (obs : List Obs) (d : DagRef) (n : 
   · next hp =>
     have hp' : s.procExists n = false := by simpa using hp
     have := coreInv_mark h n hp'
-    simp only []
-    split <;> simpa using this
+    exact coreInv_cbThen _ _ _ _ _ _ this (fun s' obs' h' => coreInv_nodeBegin _ _ _ _ _ _ _ _ h')
 
 theorem coreInv_dagInit (c : Ctx) (s : St) (obs : List Obs) (d : DagRef) (below : List Frame)
     (h : CoreInv s.core) : CoreInv (dagInit c s obs d below).1.core := by
@@ -113,7 +125,11 @@ theorem coreInv_stepTask (c : Ctx) (s : St) (out : Out) (h : CoreInv s.core)
           | exact coreInv_nodeStart _ _ _ _ _ _ _ h
           | exact coreInv_switchStart _ _ _ _ _ _ h
           | exact coreInv_recStart _ _ _ _ _ _ _ h
-          | exact coreInv_recIter _ _ _ _ _ _ _ _ _ _ h)
+          | exact coreInv_recIter _ _ _ _ _ _ _ _ _ _ h
+          | exact coreInv_cbThen _ _ _ _ _ _ h (fun s' obs' h' => by
+              first
+                | (simpa using h')
+                | exact coreInv_nodeBegin _ _ _ _ _ _ _ _ h'))
     all_goals simp at hs
 
 theorem coreInv_step (P : Program) (s : St) (ch : Choice) (out : Out) (h : CoreInv s.core)
